@@ -23,8 +23,13 @@
     E  qualify_outputs     every projection aliased (column name or `_col_i`); outer column list pushed down
     F  positional GROUP BY / ORDER BY, ORDER BY expression -> alias when grouping
     G  validate_qualify_columns
-  NOT modelled (covered by the search oracle on the real code only): USING / NATURAL joins, join conditions,
-  correlated subqueries, set operations, pivots, UDTFs, struct expansion, REPLACE/RENAME/ILIKE on stars,
+    U  _expand_using       USING / NATURAL joins become ON conditions (COALESCE over the merged tables from the
+                           second merge on), bare references to a merged column become COALESCE(...) [AS name];
+                           `_expand_stars` then lists a merged column once, for the tables that take part in the merge
+  Join conditions are modelled only when every column in them is qualified (what USING expansion produces and what a
+  second pass sees).
+  NOT modelled (covered by the search oracle on the real code only): SEMI / ANTI joins, join conditions with bare
+  names (join-context resolution), correlated subqueries, set operations, pivots, UDTFs, struct expansion, REPLACE/RENAME/ILIKE on stars,
   aggregate-aware alias expansion, unaliased derived tables (`_0` names), BigQuery/Snowflake dialect flags
   (PREFER_CTE_ALIAS_COLUMN, FORCE_EARLY_ALIAS_REF_EXPANSION, ...), pseudocolumns.
 -/
@@ -61,6 +66,38 @@ def quoteIdentifier (i : Ident) (underFunc cs safeRe identify : Bool) : Ident :=
 /-- an identifier is case-sensitive under the dialect's rules iff `normalize_identifier` must not touch it -/
 def caseSensitiveUnder (s : Strategy) (i : Ident) : Bool := !folds s i.quoted
 
+/-! ### table-sensitive dialects (BigQuery.normalize_identifier) and the default db / catalog
+
+  `Model/Ident.lean` (shared) mirrors the base `Dialect.normalize_identifier`.  BigQuery overrides it: under its
+  CASE_INSENSITIVE strategy every identifier is lower-cased EXCEPT those it takes for table parts or UDF names,
+  decided from the identifier's surroundings.  `normalizeT` wraps `Ident.normalize` with that rule;
+  `tableSensitive` says whether the dialect has the override (translator: `base_normalize = false`). -/
+
+/-- what `BigQuery.normalize_identifier` looks at besides the strategy -/
+structure TableCtx where
+  underUdf : Bool      -- parent (through Dots) is a UserDefinedFunction
+  tableWithDb : Bool   -- parent (through Dots) is a Table that has a db
+  quotedTable : Bool   -- that Table's meta["quoted_table"]
+  maybeColumn : Bool   -- that Table's meta["maybe_column"]
+  isTableTag : Bool    -- the identifier's own meta["is_table"]
+deriving DecidableEq, Repr, Inhabited
+
+def TableCtx.plain : TableCtx := ⟨false, false, false, false, false⟩
+
+def tableCaseSensitive (c : TableCtx) : Bool :=
+  c.underUdf || (c.tableWithDb && (c.quotedTable || !c.maybeColumn)) || c.isTableTag
+
+def normalizeT (f : CaseFns) (tableSensitive : Bool) (s : Strategy) (c : TableCtx) (i : Ident) : Ident :=
+  if tableSensitive && s == .caseInsensitive then
+    (if tableCaseSensitive c then i else { i with name := f.lower i.name })
+  else normalize f s i
+
+/-- `qualify_tables`: the default `db` / `catalog` argument is parsed to an identifier, TAGGED `is_table`, then
+    normalised (`tagFirst = true`, what the source does; the translator re-reads the statement order).  With the
+    tag set only afterwards (`tagFirst = false`) a table-sensitive dialect folds the name. -/
+def defaultQualifier (f : CaseFns) (tableSensitive : Bool) (s : Strategy) (tagFirst : Bool) (i : Ident) : Ident :=
+  normalizeT f tableSensitive s { TableCtx.plain with isTableTag := tagFirst } i
+
 /-! ## Part 2: the scope model -/
 
 inductive Op where
@@ -72,6 +109,7 @@ inductive Expr where
   | lit (n : Nat)
   | bin (op : Op) (l r : Expr)
   | paren (e : Expr)
+  | coalesce (args : List (String × String))   -- COALESCE(t1.c, t2.c, ..) as _expand_using / _expand_stars build it
 deriving DecidableEq, Repr, Inhabited
 
 inductive SrcKind where
@@ -89,9 +127,17 @@ inductive Proj where
   | item (e : Expr) (alias : Option String)
 deriving DecidableEq, Repr, Inhabited
 
+/-- one JOIN (the i-th join brings in source i+1) -/
+structure Join where
+  natural : Bool
+  usingCols : List String
+  on : Option Expr
+deriving DecidableEq, Repr, Inhabited
+
 structure Scope where
   outer : List String
   srcs : List Src
+  joins : List Join
   projs : List Proj
   whr : Option Expr
   group : List Expr
@@ -169,14 +215,17 @@ def unique (env : Env) (n : String) : Option String :=
   | [e] => some e.1
   | _ => none
 
+/-- the `Unknown column` test of `_qualify_columns` passes for `t.n` -/
+def colCheck (env : Env) (t n : String) : Bool :=
+  match envCols env t with
+  | some cols => cols.isEmpty || cols.contains n || cols.contains "*"
+  | none => true
+
 /-! ### step B: _qualify_columns -/
 
 /-- `skip` = names this clause must leave bare (ORDER BY: the select's named outputs) -/
 def qcol (env : Env) (skip : List String) : Expr → Except Err Expr
-  | .col (some t) n =>
-    match envCols env t with
-    | some cols => if !cols.isEmpty && !cols.contains n && !cols.contains "*" then .error .optimize else .ok (.col (some t) n)
-    | none => .ok (.col (some t) n)
+  | .col (some t) n => if colCheck env t n then .ok (.col (some t) n) else .error .optimize
   | .col none n =>
     if skip.contains n then .ok (.col none n)
     else match unique env n with
@@ -190,13 +239,11 @@ def qcol (env : Env) (skip : List String) : Expr → Except Err Expr
   | .paren e => do
     let e' ← qcol env skip e
     pure (.paren e')
+  | .coalesce args => if args.all (fun a => colCheck env a.1 a.2) then .ok (.coalesce args) else .error .optimize
 
 /-- HAVING: only already-qualified columns are `Scope.columns` -/
 def qcolHaving (env : Env) : Expr → Except Err Expr
-  | .col (some t) n =>
-    match envCols env t with
-    | some cols => if !cols.isEmpty && !cols.contains n && !cols.contains "*" then .error .optimize else .ok (.col (some t) n)
-    | none => .ok (.col (some t) n)
+  | .col (some t) n => if colCheck env t n then .ok (.col (some t) n) else .error .optimize
   | .col none n => .ok (.col none n)
   | .lit k => .ok (.lit k)
   | .bin op l r => do
@@ -206,6 +253,7 @@ def qcolHaving (env : Env) : Expr → Except Err Expr
   | .paren e => do
     let e' ← qcolHaving env e
     pure (.paren e')
+  | .coalesce args => if args.all (fun a => colCheck env a.1 a.2) then .ok (.coalesce args) else .error .optimize
 
 def qcolProj (env : Env) : Proj → Except Err Proj
   | .star t exc => .ok (.star t exc)
@@ -295,6 +343,7 @@ def expand (env : Env) (m : AMap) (cl : Clause) (ctx : Ctx) : Expr → Expr
   | .lit k => .lit k
   | .bin op l r => .bin op (expand env m cl (.op op) l) (expand env m cl (.op op) r)
   | .paren e => .paren (expand env m cl .paren e)
+  | .coalesce args => .coalesce args
 
 /-- projections left to right; an aliased projection enters the map with its expanded expression -/
 def expandProjs (env : Env) : AMap → Nat → List Proj → List Proj × AMap
@@ -423,6 +472,7 @@ def visible (names skip : List String) : Expr → Bool
   | .lit _ => true
   | .bin _ l r => visible names skip l && visible names skip r
   | .paren e => visible names skip e
+  | .coalesce args => args.all (fun a => names.contains a.1)
 
 /-- HAVING as `Scope.columns` sees it: bare names are not collected at all -/
 def visibleHaving (names : List String) : Expr → Bool
@@ -431,10 +481,10 @@ def visibleHaving (names : List String) : Expr → Bool
   | .lit _ => true
   | .bin _ l r => visibleHaving names l && visibleHaving names r
   | .paren e => visibleHaving names e
+  | .coalesce args => args.all (fun a => names.contains a.1)
 
 def projVisible (names : List String) : Proj → Bool
-  | .star none _ => true
-  | .star (some t) _ => names.contains t
+  | .star _ _ => true        -- a star that survived expansion is not a `Scope.columns` entry
   | .item e _ => visible names [] e
 
 def validate (names : List String) (s : Scope) : Bool :=
@@ -443,6 +493,193 @@ def validate (names : List String) (s : Scope) : Bool :=
   && s.group.all (visible names [])
   && (match s.having with | some e => visibleHaving names e | none => true)
   && s.order.all (visible names (namedSelects s.projs))
+  && s.joins.all (fun j => match j.on with | some e => visible names [] e | none => true)
+
+/-! ### step U: _expand_using -/
+
+abbrev ColTables := List (String × List String)   -- merged column ↦ the tables merged over it, in order
+
+def colsOf (env : Env) (t : String) : List String := (envCols env t).getD []
+
+/-- `_update_source_columns`: the first source that exposes a column owns it -/
+def addCols (src : String) : List String → List (String × String) → List (String × String)
+  | [], acc => acc
+  | c :: cs, acc => addCols src cs (if acc.any (fun p => p.1 == c) then acc else acc ++ [(c, src)])
+
+def ctAdd (ct : ColTables) (c t : String) : ColTables :=
+  match ct.find? (fun e => e.1 == c) with
+  | some _ => ct.map (fun e => if e.1 == c then (if e.2.contains t then e else (e.1, e.2 ++ [t])) else e)
+  | none => ct ++ [(c, [t])]
+
+structure UState where
+  columns : List (String × String)
+  ordered : List String
+  ct : ColTables
+
+def andChain : List Expr → Option Expr
+  | [] => none
+  | e :: es => some (es.foldl (fun acc x => .bin .and acc x) e)
+
+/-- the ON operand and owning table for one USING identifier -/
+def usingLhs (env : Env) (first single : Bool) (ordered : List String) (table id : String) : Expr :=
+  if first || single then .col (some table) id
+  else
+    let cc := ordered.dropLast.filter (fun t => (colsOf env t).contains id)
+    if cc.length > 1 then .coalesce (cc.map (fun t => (t, id))) else .col (some table) id
+
+/-- one USING identifier: `none` = "Cannot automatically join" -/
+def usingOne (env : Env) (first single : Bool) (columns : List (String × String)) (ordered : List String)
+    (srcTable joinTable : String) (jc : List String) (ct : ColTables) (id : String) : Option (Expr × ColTables) :=
+  let table? := (columns.find? (fun p => p.1 == id)).map (·.2)
+  let keys := columns.map (·.1)
+  if (table?.isNone || !jc.contains id) && (!columns.isEmpty && !keys.contains "*") && !jc.isEmpty then none
+  else
+    let table := table?.getD srcTable
+    some (.bin .eq (usingLhs env first single ordered table id) (.col (some joinTable) id),
+          ctAdd (ctAdd ct id table) id joinTable)
+
+def usingAll (env : Env) (first single : Bool) (columns : List (String × String)) (ordered : List String)
+    (srcTable joinTable : String) (jc : List String) : ColTables → List String → Option (List Expr × ColTables)
+  | ct, [] => some ([], ct)
+  | ct, id :: ids =>
+    match usingOne env first single columns ordered srcTable joinTable jc ct id with
+    | none => none
+    | some (c, ct') =>
+      match usingAll env first single columns ordered srcTable joinTable jc ct' ids with
+      | none => none
+      | some (cs, ct'') => some (c :: cs, ct'')
+
+/-- the i-th join (bringing in source `a`); returns the rewritten join and whether its ON was generated here -/
+def joinStep (env : Env) (i : Nat) (st : UState) (a : String) (j : Join) : Except Err (UState × Join × Bool) :=
+  match st.ordered.getLast? with
+  | none => .error .internal
+  | some srcTable =>
+    let columns := addCols srcTable (colsOf env srcTable) st.columns
+    let ordered := st.ordered ++ [a]
+    let jc := colsOf env a
+    let keys := columns.map (·.1)
+    let us := if j.usingCols.isEmpty && j.natural then
+        (if !columns.isEmpty && !keys.contains "*" && !jc.isEmpty && !jc.contains "*" then keys.filter jc.contains else [])
+      else j.usingCols
+    if us.isEmpty then .ok ({ columns := columns, ordered := ordered, ct := st.ct }, j, false)
+    else match usingAll env (i == 0) (us.length == 1) columns ordered srcTable a jc st.ct us with
+      | none => .error .optimize
+      | some (conds, ct') =>
+        .ok ({ columns := columns, ordered := ordered, ct := ct' },
+             { natural := false, usingCols := [], on := andChain conds }, true)
+
+def joinSteps (env : Env) : Nat → UState → List String → List Join → Except Err (List (Join × Bool) × ColTables)
+  | _, st, [], [] => .ok ([], st.ct)
+  | i, st, a :: as, j :: js => do
+    let r ← joinStep env i st a j
+    let rest ← joinSteps env (i + 1) r.1 as js
+    pure ((r.2.1, r.2.2) :: rest.1, rest.2)
+  | _, _, _, _ => .error .internal
+
+def hasMerge (js : List Join) : Bool := js.any (fun j => !j.usingCols.isEmpty || j.natural)
+
+/-- `_expand_using` over the joins of a scope whose source aliases are `names` (FROM item first) -/
+def expandUsing (env : Env) (names : List String) (js : List Join) : Except Err (List (Join × Bool) × ColTables) :=
+  if !hasMerge js then .ok (js.map (fun j => (j, false)), [])
+  else match names with
+    | [] => .error .internal
+    | a0 :: as => joinSteps env 0 { columns := addCols a0 (colsOf env a0) [], ordered := [a0], ct := [] } as js
+
+def coalesceOf (ct : ColTables) (n : String) : Option Expr :=
+  (ct.find? (fun e => e.1 == n)).map (fun e => .coalesce (e.2.map (fun t => (t, n))))
+
+/-- bare references to a merged column become COALESCE over the merged tables -/
+def replUsing (ct : ColTables) (skip : List String) : Expr → Expr
+  | .col none n =>
+    if skip.contains n then .col none n
+    else match coalesceOf ct n with
+      | some e => e
+      | none => .col none n
+  | .col (some t) n => .col (some t) n
+  | .lit k => .lit k
+  | .bin op l r => .bin op (replUsing ct skip l) (replUsing ct skip r)
+  | .paren e => .paren (replUsing ct skip e)
+  | .coalesce args => .coalesce args
+
+/-- a projection that IS the bare merged column keeps its name -/
+def replUsingProj (ct : ColTables) : Proj → Proj
+  | .star t exc => .star t exc
+  | .item (.col none n) none =>
+    match coalesceOf ct n with
+    | some e => .item e (some n)
+    | none => .item (.col none n) none
+  | .item e a => .item (replUsing ct [] e) a
+
+/-- no bare (unqualified) name under `e` -/
+def noBare : Expr → Bool
+  | .col none _ => false
+  | .col (some _) _ => true
+  | .lit _ => true
+  | .bin _ l r => noBare l && noBare r
+  | .paren e => noBare e
+  | .coalesce _ => true
+
+/-- a join condition: only fully qualified ones are modelled; a condition generated by `_expand_using` is seen
+    by `_qualify_columns` only if some bare reference was replaced (which clears the scope's column cache) -/
+def qcolJoin (env : Env) (replaced : Bool) (jg : Join × Bool) : Except Err Join :=
+  match jg.1.on with
+  | none => .ok jg.1
+  | some e =>
+    if jg.2 && !replaced then .ok jg.1
+    else if !noBare e then .error .unsupported
+    else do
+      let e' ← qcol env [] e
+      pure { jg.1 with on := some e' }
+
+/-! ### step D with merged columns -/
+
+def starColsU (ct : ColTables) (t : String) (exc : List String) : List String → List String → List Proj × List String
+  | coal, [] => ([], coal)
+  | coal, c :: cs =>
+    if exc.contains c || coal.contains c then starColsU ct t exc coal cs
+    else match ct.find? (fun e => e.1 == c) with
+      | some e =>
+        if e.2.contains t then
+          let r := starColsU ct t exc (coal ++ [c]) cs
+          (.item (.coalesce (e.2.map (fun x => (x, c)))) (some c) :: r.1, r.2)
+        else
+          let r := starColsU ct t exc coal cs
+          (.item (.col (some t) c) none :: r.1, r.2)
+      | none =>
+        let r := starColsU ct t exc coal cs
+        (.item (.col (some t) c) none :: r.1, r.2)
+
+def expandStarTablesU (ct : ColTables) (exc : List String) : List String → Env → Option (List Proj × List String)
+  | coal, [] => some ([], coal)
+  | coal, (t, cols) :: rest =>
+    if cols.isEmpty || cols.contains "*" || hasDup cols then none
+    else
+      let r := starColsU ct t exc coal cols
+      match expandStarTablesU ct exc r.2 rest with
+      | some (ps, coal') => some (r.1 ++ ps, coal')
+      | none => none
+
+/-- `none` inside = abandoned; the set of already coalesced names is shared by all stars of the select -/
+def expandStarsU (env : Env) (ct : ColTables) : List String → List Proj → Except Err (Option (List Proj))
+  | _, [] => .ok (some [])
+  | coal, .star none exc :: ps =>
+    match expandStarTablesU ct exc coal env with
+    | none => .ok none
+    | some (qs, coal') => do
+      let rs ← expandStarsU env ct coal' ps
+      pure (rs.map (fun r => qs ++ r))
+  | coal, .star (some t) exc :: ps =>
+    match envCols env t with
+    | none => .error .optimize
+    | some cols =>
+      match expandStarTablesU ct exc coal [(t, cols)] with
+      | none => .ok none
+      | some (qs, coal') => do
+        let rs ← expandStarsU env ct coal' ps
+        pure (rs.map (fun r => qs ++ r))
+  | coal, p :: ps => do
+    let rs ← expandStarsU env ct coal ps
+    pure (rs.map (fun r => p :: r))
 
 /-! ### the pipeline -/
 
@@ -457,21 +694,33 @@ def applyStars (env : Env) (ps : List Proj) : Except Err (List Proj) :=
   | .abandon => .ok ps
   | .unknownTable => .error .optimize
 
-/-- steps B–F for one scope whose sources are aliased (`srcs'`) and resolved (`env`, in `references` order) -/
-def buildScope (g : Gen) (env : Env) (srcs' : List Src) (s : Scope) : Except Err Scope := do
+def applyStarsU (env : Env) (ct : ColTables) (ps : List Proj) : Except Err (List Proj) :=
+  if ct.isEmpty then applyStars env ps
+  else do
+    let r ← expandStarsU env ct [] ps
+    match r with
+    | some qs => if qs.isEmpty then pure ps else pure qs
+    | none => pure ps
+
+/-- steps B–F for one scope whose sources are aliased (`srcs'`) and resolved (`env`, in `references` order), after
+    step U produced the merge table `ct` and the (join, ON-generated-here) pairs `jgs`; `replaced` = step U rewrote
+    some bare reference -/
+def buildCore (g : Gen) (env : Env) (srcs' : List Src) (ct : ColTables) (jgs : List (Join × Bool)) (replaced : Bool)
+    (skipOrder : List String) (s : Scope) : Except Err Scope := do
   -- B
   let projsB ← mapE (qcolProj env) s.projs
   let whrB ← optE (qcol env []) s.whr
   let groupB ← mapE (qcol env []) s.group
   let havingB ← optE (qcolHaving env) s.having
-  let orderB ← mapE (qcol env (namedSelects s.projs)) s.order
+  let orderB ← mapE (qcol env skipOrder) s.order
+  let joinsB ← mapE (qcolJoin env replaced) jgs
   -- C
   let pc := expandProjs env [] 0 projsB
   let whrC := whrB.map (expand env pc.2 .plain .root)
   let groupC := groupB.map (expand env pc.2 .group .root)
   let havingC := havingB.map (expand env pc.2 .having .root)
   -- D
-  let projsD ← applyStars env pc.1
+  let projsD ← applyStarsU env ct pc.1
   if hasStar projsD && !s.outer.isEmpty then .error .unsupported else do
   -- E
   let projsE := qualifyOutputs g.colName 0 s.outer projsD
@@ -479,8 +728,20 @@ def buildScope (g : Gen) (env : Env) (srcs' : List Src) (s : Scope) : Except Err
   let groupF ← mapE (groupPos projsE) groupC
   let orderF ← mapE (orderPos projsE) orderB
   let orderF' := if groupF.isEmpty then orderF else orderF.map (orderByAlias projsE)
-  pure { outer := [], srcs := srcs', projs := projsE, whr := whrC, group := groupF,
+  pure { outer := [], srcs := srcs', joins := joinsB, projs := projsE, whr := whrC, group := groupF,
          having := havingC, order := orderF' }
+
+/-- step U, then B–F -/
+def buildScope (g : Gen) (env : Env) (srcs' : List Src) (s : Scope) : Except Err Scope := do
+  if s.joins.length + 1 != srcs'.length && !(s.joins.isEmpty) then .error .internal else do
+  let u ← expandUsing env (srcs'.filterMap (·.alias)) s.joins
+  let ct := u.2
+  let skipOrder := namedSelects s.projs
+  let s1 : Scope := if ct.isEmpty then s else
+    { s with projs := s.projs.map (replUsingProj ct), whr := s.whr.map (replUsing ct []),
+             group := s.group.map (replUsing ct []), order := s.order.map (replUsing ct skipOrder) }
+  let replaced := !ct.isEmpty && (s1.projs != s.projs || s1.whr != s.whr || s1.group != s.group || s1.order != s.order)
+  buildCore g env srcs' ct u.1 replaced skipOrder s1
 
 /-- step G -/
 def check (names : List String) (s' : Scope) : Except Err Scope :=
